@@ -286,6 +286,29 @@ def _map_cases(tier, rng):
         modes = list(MODES_QUICK) + (MODES_EXTRA if (tier != "quick" or q % 6 == 0) else [])
         for mode in modes:
             yield {"prog": prog, "fail": list(calls[k]), "exc": rng.choice(sorted(progs.EXC_FACTORIES)), "mode": mode}
+    yield from _whole_array_consumer_cases(tier, rng)
+
+
+def _whole_array_consumer_cases(tier, rng):
+    """Quota: the failing invocation is a function that takes a *mapped* array whole (no MapSpec on it, or ':' axes):
+    what it received is an array held by the storage, and the note must show its values."""
+    want, tries = (6 if tier == "quick" else 60), 0
+    while want and tries < 20000:
+        tries += 1
+        prog = progs.gen_map_program(rng, n_funcs=rng.randint(2, 3), allow_generator=False)
+        _, calls = progs.denote(prog)
+        if not 1 <= len(calls) <= 8:
+            continue
+        mapped = {o for f in prog["funcs"] if f.get("spec") and f["spec"]["inputs"] for o in f["outputs"]}
+        whole = [f for f in prog["funcs"] if any(p in mapped for p in f["params"]) and
+                 (not f.get("spec") or any(n_ in mapped and all(a is None for a in ax) for n_, ax in f["spec"]["inputs"])
+                  or any(p in mapped and p not in dict(f["spec"]["inputs"]) for p in f["params"]))]
+        idx = [i for i, c in enumerate(calls) if any(c[0] == f["name"] for f in whole)]
+        if not idx:
+            continue
+        want -= 1
+        for mode in MODES_QUICK:
+            yield {"prog": prog, "fail": list(calls[idx[0]]), "exc": rng.choice(sorted(progs.EXC_FACTORIES)), "mode": mode}
 
 
 def _generation_of(prog):
